@@ -767,6 +767,16 @@ def install(interp):
         r(np.abs, np_abs)
         r(np.absolute, np_abs)
 
+        def np_isnan(interp, a, *rest, **kw):
+            # symbolic reals are numbers (assumption A2: floats are treated as mathematical reals), concrete entries are tested natively
+            if isinstance(a, Sym):
+                return False
+            if isinstance(a, np.ndarray) and contains_sym(a):
+                flat = [False if isinstance(x, Sym) else bool(np.isnan(x)) for x in a.ravel().tolist()]
+                return np.array(flat, dtype=bool).reshape(a.shape)
+            return np.isnan(a, *rest, **kw)
+        r(np.isnan, np_isnan)
+
         def np_argwhere(interp, a, *rest, **kw):
             if isinstance(a, np.ndarray) and contains_sym(a):
                 # which elements are true is decided per path (one fork per symbolic element)
